@@ -35,7 +35,7 @@ pub struct LefSwarm {
 }
 impl LefSwarm {
     pub fn draw(t: &mut Tape, allow_utf8: bool) -> Self {
-        let version = *t.pick(&[Some("5.3"), Some("5.4"), Some("5.5"), Some("5.6"), Some("5.7"), Some("5.8"), Some("5.8"), None]);
+        let version = *t.pick(&[Some("5.3"), Some("5.4"), Some("5.5"), Some("5.6"), Some("5.7"), Some("5.8"), Some("5.8"), None, Some("5.3"), Some("5.5"), Some("5.7"), Some("5")]);
         LefSwarm {
             version,
             end_library: t.chance(3, 4),
@@ -62,7 +62,7 @@ impl LefSwarm {
         }
     }
     fn old(&self) -> bool {
-        matches!(self.version, Some("5.3") | Some("5.4"))
+        matches!(self.version, Some("5.3") | Some("5.4") | Some("5"))
     }
 }
 
@@ -763,7 +763,8 @@ impl<'a> W<'a> {
         if let Some(v) = self.sw.version {
             self.kw("VERSION");
             // alternative spellings of the same version
-            let v = if self.t.chance(1, 6) { format!("{}0", v) } else { v.to_string() };
+            // ("5" is a version spelled without a fractional digit, as the repository's own sample does; it sorts before 5.3)
+            let v = if self.t.chance(1, 6) { if v.contains('.') { format!("{}0", v) } else { format!("{}.0", v) } } else { v.to_string() };
             self.tok(&v);
             self.semi();
         }
